@@ -2,6 +2,7 @@ package main
 
 import (
 	"fmt"
+	"go/token"
 	"go/types"
 	"sort"
 	"strings"
@@ -11,7 +12,7 @@ import (
 
 func init() {
 	register("C20", runC20, propMeta{
-		Explanation: "Decides the provenance of every cited source position and that the listed fault classes cannot fail without one: (L1) every AST node type whose methods read SourceCode.LineNum has, in the listener's exit handler for its grammar rule, stores of LineNum, Column and Code on the node just popped; (L2) the stored line is ctx.GetStart().GetLine() and the column ctx.GetStart().GetColumn() of the handler's own parse context, the code ctx.GetText(), with no arithmetic, not GetStop() and not another context; the three compile pipelines feed the complete text to one input stream (C10-K1), so ANTLR's 1-based token line is relative to the whole text; (L3) every error created in an evaluator of a citing node type (errors.New / fmt.Errorf, including the recover literals) is formatted `line %d, column...` with the receiver's own LineNum and Column as its first two arguments — one named exception: the unreachable fall-through of ExpressionAtom.Evaluate; (L4) citing closure, greatest fixpoint over the evaluator call graph: every non-nil error returned by Assignment, FunctionCall, MethodCall, ThreeLevelCall, MathExpression and Expression evaluation is created there with the receiver's position, or passed on unchanged from a callee that itself always cites; errors of DataContext and core functions, which carry no position, must therefore be wrapped. Not decided: the wording of messages; ANTLR's own line counting (trusted to be 1-based).",
+		Explanation: "Decides the provenance of every cited source position and that the listed fault classes cannot fail without one: (L1) every AST node type whose methods read SourceCode.LineNum has, in the listener's exit handler for its grammar rule, stores of LineNum, Column and Code on the node just popped; (L2) the stored line is ctx.GetStart().GetLine() and the column ctx.GetStart().GetColumn() of the handler's own parse context, the code ctx.GetText(), with no arithmetic, not GetStop() and not another context; the three compile pipelines feed the complete text to one input stream (C10-K1), so ANTLR's 1-based token line is relative to the whole text; (L3) every error created in an evaluator of a citing node type (errors.New / fmt.Errorf, including the recover literals) is formatted `line %d, column...` with the receiver's own LineNum and Column as its first two arguments — one named exception: the unreachable fall-through of ExpressionAtom.Evaluate; (L4) citing closure, greatest fixpoint over the evaluator call graph: every non-nil error returned by Assignment, FunctionCall, MethodCall, ThreeLevelCall, MathExpression and Expression evaluation is created there with the receiver's position, or passed on unchanged from a callee that itself always cites; errors of DataContext and core functions, which carry no position, must therefore be wrapped. (L5) an error that cites a node other than the evaluator's own receiver cites the node whose Evaluate result the guarding tests examine. Not decided: the wording of messages; ANTLR's own line counting (trusted to be 1-based).",
 		Assumptions: []string{"antlr Token.GetLine is 1-based and counts from the start of the input stream"},
 		Trusted:     commonTrusted,
 	})
@@ -27,69 +28,238 @@ func sourceCodeField(v ssa.Value) (node ssa.Value, typ string, field string, ok 
 	if fv == nil || structName(fa.X.Type()) != "SourceCode" {
 		return
 	}
-	inner, isFA2 := fa.X.(*ssa.FieldAddr)
+	base := fa.X
+	// a SourceCode handed on by value (`newPositionError(e.SourceCode, ..)`): the local copy is
+	// assigned once, as a whole, from the node's embedded SourceCode (or from another such copy)
+	for i := 0; i < 6; i++ {
+		al, isAl := base.(*ssa.Alloc)
+		if !isAl {
+			break
+		}
+		var only *ssa.Store
+		n := 0
+		for _, r := range *al.Referrers() {
+			if st, isSt := r.(*ssa.Store); isSt && st.Addr == ssa.Value(al) {
+				only = st
+				n++
+			}
+		}
+		if n != 1 {
+			return
+		}
+		ld, isLd := only.Val.(*ssa.UnOp)
+		if !isLd || ld.Op != token.MUL {
+			return
+		}
+		base = ld.X
+	}
+	inner, isFA2 := base.(*ssa.FieldAddr)
 	if !isFA2 || fieldOf(inner) == nil || !fieldOf(inner).Embedded() {
 		return
 	}
 	return inner.X, structName(inner.X.Type()), fv.Name(), true
 }
 
-// positionedFormat: the call is fmt.Sprintf/Errorf with a format starting "line %d, column" whose first two variadic arguments are LineNum and Column of `recv`.
-func (x *FnIndex) positionedFormat(call *ssa.Call, recv ssa.Value) bool {
-	cal := call.Call.StaticCallee()
-	if cal == nil || cal.Pkg == nil || cal.Pkg.Pkg.Path() != "fmt" || (cal.Name() != "Sprintf" && cal.Name() != "Errorf") {
+// positionFieldsOf: T is an error type of the module whose Error() formats, in every message it
+// can produce, "line %d, column ..." from two of its own fields; the indices of those fields.
+var positionFieldCache = map[*types.Named][2]int{}
+
+func (c *Ctx) positionFieldsOf(t *types.Named) (line, column int, ok bool) {
+	if v, seen := positionFieldCache[t]; seen {
+		return v[0], v[1], v[0] >= 0
+	}
+	positionFieldCache[t] = [2]int{-1, -1}
+	var errFn *ssa.Function
+	for _, f := range c.AllFns {
+		if f.Name() == "Error" && f.Signature.Recv() != nil && f.Parent() == nil {
+			rt := f.Signature.Recv().Type()
+			if p, isP := rt.(*types.Pointer); isP {
+				rt = p.Elem()
+			}
+			if rt == types.Type(t) {
+				errFn = f
+			}
+		}
+	}
+	if errFn == nil {
+		return -1, -1, false
+	}
+	x := c.Index(errFn)
+	recv := ssa.Value(errFn.Params[0])
+	line, column = -1, -1
+	okAll, n := true, 0
+	eachInstr(errFn, func(in ssa.Instruction) {
+		call, isCall := in.(*ssa.Call)
+		if !isCall || !(fnIs(call.Call.StaticCallee(), "fmt", "", "Sprintf") || fnIs(call.Call.StaticCallee(), "fmt", "", "Errorf")) {
+			return
+		}
+		n++
+		f0, isS := constString(call.Call.Args[0])
+		args := x.variadicElems(call.Call.Args[1])
+		if !isS || !strings.HasPrefix(f0, "line %d, column") || len(args) < 2 {
+			okAll = false
+			return
+		}
+		var idx [2]int
+		for i := 0; i < 2; i++ {
+			u, isU := x.Unwrap(args[i]).(*ssa.UnOp)
+			if !isU {
+				okAll = false
+				return
+			}
+			fa, isFA := u.X.(*ssa.FieldAddr)
+			if !isFA || x.Origin(fa.X) != recv {
+				okAll = false
+				return
+			}
+			idx[i] = fa.Field
+		}
+		if line >= 0 && (line != idx[0] || column != idx[1]) {
+			okAll = false
+		}
+		line, column = idx[0], idx[1]
+	})
+	if !okAll || n == 0 || line < 0 {
+		return -1, -1, false
+	}
+	positionFieldCache[t] = [2]int{line, column}
+	return line, column, true
+}
+
+// positionedErrorValue: v is a freshly built value of such an error type whose line and column
+// fields are given LineNum and Column of recv.
+func (c *Ctx) positionedErrorValue(x *FnIndex, v ssa.Value, recv ssa.Value) bool {
+	mi, ok := x.Origin(v).(*ssa.MakeInterface)
+	if !ok {
 		return false
 	}
-	f, ok := constString(call.Call.Args[0])
-	if !ok || !strings.HasPrefix(f, "line %d, column") {
+	pt, ok := mi.X.Type().Underlying().(*types.Pointer)
+	if !ok {
 		return false
+	}
+	nt, ok := pt.Elem().(*types.Named)
+	if !ok {
+		return false
+	}
+	li, ci, ok := c.positionFieldsOf(nt)
+	if !ok {
+		return false
+	}
+	al, ok := x.Origin(mi.X).(*ssa.Alloc)
+	if !ok {
+		return false
+	}
+	got := map[int]string{}
+	for _, r := range *al.Referrers() {
+		fa, isFA := r.(*ssa.FieldAddr)
+		if !isFA {
+			continue
+		}
+		for _, r2 := range *fa.Referrers() {
+			st, isSt := r2.(*ssa.Store)
+			if !isSt || st.Addr != ssa.Value(fa) {
+				continue
+			}
+			if u, isU := x.Unwrap(st.Val).(*ssa.UnOp); isU {
+				if node, _, field, okF := sourceCodeField(u.X); okF && x.Origin(node) == recv {
+					got[fa.Field] = field
+					continue
+				}
+			}
+			got[fa.Field] = "?"
+		}
+	}
+	return got[li] == "LineNum" && got[ci] == "Column"
+}
+
+// positionedFormat: the call is fmt.Sprintf/Errorf with a format starting "line %d, column" whose first two variadic arguments are LineNum and Column of `recv`.
+func (x *FnIndex) positionedFormat(call *ssa.Call, recv ssa.Value) bool {
+	node, ok := x.positionedFormatNode(call)
+	return ok && x.Origin(node) == recv
+}
+
+// positionedFormatNode: as positionedFormat, for whatever node the position is read from (LineNum and
+// Column of one and the same node); the node is returned.
+func (x *FnIndex) positionedFormatNode(call *ssa.Call) (ssa.Value, bool) {
+	cal := call.Call.StaticCallee()
+	if cal == nil || cal.Pkg == nil || cal.Pkg.Pkg.Path() != "fmt" || (cal.Name() != "Sprintf" && cal.Name() != "Errorf") {
+		return nil, false
+	}
+	// the format, or the leftmost piece of a format put together with +
+	fv := x.Origin(call.Call.Args[0])
+	for i := 0; i < 4; i++ {
+		bo, isCat := fv.(*ssa.BinOp)
+		if !isCat || bo.Op != token.ADD {
+			break
+		}
+		fv = x.Origin(bo.X)
+	}
+	f, ok := constString(fv)
+	if !ok || !strings.HasPrefix(f, "line %d, column") {
+		return nil, false
 	}
 	args := x.variadicElems(call.Call.Args[1])
 	if len(args) < 2 {
-		return false
+		return nil, false
 	}
+	var theNode ssa.Value
 	for i, want := range []string{"LineNum", "Column"} {
 		a := x.Unwrap(args[i])
 		u, ok := a.(*ssa.UnOp)
 		if !ok {
-			return false
+			return nil, false
 		}
 		node, _, field, ok := sourceCodeField(u.X)
-		if !ok || field != want || x.Origin(node) != recv {
-			return false
+		if !ok || field != want {
+			return nil, false
 		}
+		if theNode != nil && x.Origin(node) != x.Origin(theNode) {
+			return nil, false
+		}
+		theNode = node
 	}
-	return true
+	return theNode, true
 }
 
 // errorIsPositioned: v is errors.New(Sprintf(positioned)) or fmt.Errorf(positioned).
 func (x *FnIndex) errorIsPositioned(v ssa.Value, recv ssa.Value) bool {
+	node, ok := x.errorPositionNode(v)
+	return ok && x.Origin(node) == recv
+}
+
+// errorPositionNode: the node whose position a newly created error starts with, if it starts with one.
+func (x *FnIndex) errorPositionNode(v ssa.Value) (ssa.Value, bool) {
 	call, ok := x.Origin(v).(*ssa.Call)
 	if !ok {
-		return false
+		return nil, false
 	}
 	if fnIs(call.Call.StaticCallee(), "fmt", "", "Errorf") {
-		return x.positionedFormat(call, recv)
+		return x.positionedFormatNode(call)
 	}
 	if fnIs(call.Call.StaticCallee(), "errors", "", "New") {
 		// the message: Sprintf(...) possibly passed through strings.ReplaceAll (recover literals)
 		arg := x.Origin(call.Call.Args[0])
-		for i := 0; i < 4; i++ {
+		for i := 0; i < 6; i++ {
+			// prefix + rest: the text starts with what the leftmost operand is
+			if bo, isCat := arg.(*ssa.BinOp); isCat && bo.Op == token.ADD {
+				arg = x.Origin(bo.X)
+				continue
+			}
 			inner, ok := arg.(*ssa.Call)
 			if !ok {
-				return false
+				return nil, false
 			}
-			if x.positionedFormat(inner, recv) {
-				return true
+			if node, ok := x.positionedFormatNode(inner); ok {
+				return node, true
 			}
 			if fnIs(inner.Call.StaticCallee(), "strings", "", "ReplaceAll") {
 				arg = x.Origin(inner.Call.Args[0])
 				continue
 			}
-			return false
+			return nil, false
 		}
 	}
-	return false
+	return nil, false
 }
 
 func runC20(c *Ctx) {
@@ -132,26 +302,7 @@ func runC20(c *Ctx) {
 		if len(f.Params) >= 2 {
 			ctx = f.Params[1]
 		}
-		eachInstr(f, func(in ssa.Instruction) {
-			st, ok := in.(*ssa.Store)
-			if !ok {
-				return
-			}
-			// a whole SourceCode struct copied onto a node: the position then comes from another node, not from a parse context
-			if fa, isFA := st.Addr.(*ssa.FieldAddr); isFA && fieldOf(fa) != nil && fieldOf(fa).Embedded() && structName(fa.Type()) == "SourceCode" {
-				typ := structName(fa.X.Type())
-				if stores[typ] == nil {
-					stores[typ] = map[string]posStore{}
-				}
-				for _, fld := range []string{"LineNum", "Column", "Code"} {
-					stores[typ][fld] = posStore{handler: f, ok: false, why: "a whole SourceCode is copied onto a " + typ + " node from another node: its errors would cite that other construct's position"}
-				}
-				return
-			}
-			node, typ, field, ok := sourceCodeField(st.Addr)
-			if !ok {
-				return
-			}
+		record := func(typ, field string, node ssa.Value, sval ssa.Value) {
 			// node: the value popped in this handler
 			popped := false
 			if ta, isTA := x.Origin(node).(*ssa.TypeAssert); isTA {
@@ -164,7 +315,7 @@ func runC20(c *Ctx) {
 				ps.ok, ps.why = false, "the position is stored on something other than the node this handler pops"
 			}
 			// value provenance
-			val := x.Origin(st.Val)
+			val := x.Origin(sval)
 			wantTok := map[string]string{"LineNum": "GetLine", "Column": "GetColumn"}
 			switch field {
 			case "LineNum", "Column":
@@ -199,6 +350,53 @@ func runC20(c *Ctx) {
 			if old, seen := stores[typ][field]; !seen || (old.ok && !ps.ok) {
 				stores[typ][field] = ps
 			}
+		}
+		eachInstr(f, func(in ssa.Instruction) {
+			st, ok := in.(*ssa.Store)
+			if !ok {
+				return
+			}
+			// a whole SourceCode struct stored onto a node: built in place from the handler's context
+			// (fields followed below), or copied from another node (then the position is that node's)
+			if fa, isFA := st.Addr.(*ssa.FieldAddr); isFA && fieldOf(fa) != nil && fieldOf(fa).Embedded() && structName(fa.Type()) == "SourceCode" {
+				typ := structName(fa.X.Type())
+				if stores[typ] == nil {
+					stores[typ] = map[string]posStore{}
+				}
+				var built *ssa.Alloc
+				if ld, isLd := x.Origin(st.Val).(*ssa.UnOp); isLd && ld.Op == token.MUL {
+					if al, isAl := x.ResolveAddr(ld.X).(*ssa.Alloc); isAl && al.Parent() == f {
+						built = al
+					}
+				}
+				done := map[string]bool{}
+				if built != nil {
+					for _, ref := range *built.Referrers() {
+						bfa, isB := ref.(*ssa.FieldAddr)
+						if !isB {
+							continue
+						}
+						for _, r2 := range *bfa.Referrers() {
+							if fst, isS := r2.(*ssa.Store); isS && fst.Addr == ssa.Value(bfa) {
+								fld := fieldOf(bfa).Name()
+								record(typ, fld, fa.X, fst.Val)
+								done[fld] = true
+							}
+						}
+					}
+				}
+				for _, fld := range []string{"LineNum", "Column", "Code"} {
+					if !done[fld] {
+						stores[typ][fld] = posStore{handler: f, ok: false, why: "a whole SourceCode is copied onto a " + typ + " node from another node: its errors would cite that other construct's position"}
+					}
+				}
+				return
+			}
+			node, typ, field, ok := sourceCodeField(st.Addr)
+			if !ok {
+				return
+			}
+			record(typ, field, node, st.Val)
 		})
 	}
 	for _, t := range cts {
@@ -255,6 +453,13 @@ func runC20(c *Ctx) {
 		recv := ssa.Value(root.Params[0])
 		k := 0
 		eachInstr(f, func(in ssa.Instruction) {
+			// an error made here: errors.New / fmt.Errorf, or a value of the module's own error type
+			if mi, isMI := in.(*ssa.MakeInterface); isMI && isErrorType(mi.Type()) && isNewError(mi) {
+				nCreated++
+				k++
+				c.Check("L3-created-errors-cite", fmt.Sprintf("%s#error%d", fnName(f), k), c.positionedErrorValue(x, mi, recv), in.Pos(), "an error value created in the evaluator of %s must carry LineNum and Column of the receiver in the fields its Error() prints as `line %%d, column`", recvName(root))
+				return
+			}
 			call, ok := in.(*ssa.Call)
 			if !ok || !(fnIs(call.Call.StaticCallee(), "errors", "", "New") || fnIs(call.Call.StaticCallee(), "fmt", "", "Errorf")) {
 				return
@@ -276,6 +481,73 @@ func runC20(c *Ctx) {
 		})
 	}
 	c.Min("L3-created-errors-cite", 20)
+
+	// L5: an error that cites the position of some other node than the evaluator's own receiver (a
+	// statement reporting a fault of one of its expressions) must cite the node whose evaluation the fault
+	// was found in: where the creation is guarded by tests of values that came out of X.Evaluate(..), the
+	// node cited is that X.
+	nL5 := 0
+	for _, f := range c.AllFns {
+		if f.Pkg == nil || f.Pkg.Pkg.Path() != pBase {
+			continue
+		}
+		root := rootOf(f)
+		if root.Signature.Recv() == nil || len(root.Params) == 0 {
+			continue
+		}
+		x := c.Index(f)
+		recv := ssa.Value(root.Params[0])
+		k := 0
+		// evaluatedNode: the receiver X of the X.Evaluate(..) call that v was computed from
+		var evaluatedNode func(v ssa.Value, d int) ssa.Value
+		evaluatedNode = func(v ssa.Value, d int) ssa.Value {
+			if d > 5 || v == nil {
+				return nil
+			}
+			switch t := x.Origin(v).(type) {
+			case *ssa.Extract:
+				if call, ok := t.Tuple.(*ssa.Call); ok {
+					if cal := call.Call.StaticCallee(); cal != nil && cal.Name() == "Evaluate" && cal.Pkg != nil && cal.Pkg.Pkg.Path() == pBase && len(call.Call.Args) > 0 {
+						return call.Call.Args[0]
+					}
+				}
+			case *ssa.Call:
+				if _, cc := reflectMethod(t); cc != nil && len(cc.Args) > 0 {
+					return evaluatedNode(cc.Args[0], d+1)
+				}
+			case *ssa.BinOp:
+				if n := evaluatedNode(t.X, d+1); n != nil {
+					return n
+				}
+				return evaluatedNode(t.Y, d+1)
+			case *ssa.UnOp:
+				if t.Op == token.NOT {
+					return evaluatedNode(t.X, d+1)
+				}
+			}
+			return nil
+		}
+		eachInstr(f, func(in ssa.Instruction) {
+			call, ok := in.(*ssa.Call)
+			if !ok || !(fnIs(call.Call.StaticCallee(), "errors", "", "New") || fnIs(call.Call.StaticCallee(), "fmt", "", "Errorf")) {
+				return
+			}
+			node, ok := x.errorPositionNode(call)
+			if !ok || x.Origin(node) == recv {
+				return
+			}
+			nL5++
+			k++
+			bad := ""
+			for _, g := range x.GuardsOf(call.Block()) {
+				if en := evaluatedNode(g.Cond, 0); en != nil && !x.sameValue(en, node) {
+					bad = fmt.Sprintf("the fault was found in what %s evaluated to, the error cites the position of %s", x.Describe(en), x.Describe(node))
+				}
+			}
+			c.Check("L5-cited-node-is-the-failing-one", fmt.Sprintf("%s#error%d", fnName(f), k), bad == "", in.Pos(), "%s", orStr(bad, "cites the node whose value was found at fault"))
+		})
+	}
+	c.Check("L5-cited-node-is-the-failing-one", "inventory", true, 0, "%d error(s) created with the position of a node other than the evaluator's own receiver", nL5)
 
 	// L4: citing closure
 	type evalFn struct {
@@ -336,11 +608,11 @@ func runC20(c *Ctx) {
 						continue
 					}
 					if isNewError(v) {
-						if x.errorIsPositioned(v, recv) {
+						if x.errorIsPositioned(v, recv) || c.positionedErrorValue(x, v, recv) {
 							continue
 						}
 						if _, isExc := exceptions[fnName(f)]; isExc {
-							if call := v.(*ssa.Call); true {
+							if call, isCall := v.(*ssa.Call); isCall {
 								if s, isS := constString(call.Call.Args[0]); isS && !strings.Contains(s, "%") {
 									continue
 								}
